@@ -73,6 +73,7 @@ type Actor struct {
 	Converter  *common.Address
 	pendingLab *pendingDeploy
 	NoLab      bool // Traffic submits no lab-contract transactions
+	StickyPct  int  // percentage of mined blocks whose reward goes to the sticky lockup tranche (0 = the default mix)
 
 	// workshares this actor mined and handed to the zone worker
 	Shares []*types.WorkObjectHeader
@@ -677,6 +678,24 @@ func (a *Actor) DrawMineOpts(t *rapid.T, order int) MineOpts {
 	}
 	// coinbase data layout: {lock} | {lock, contract} | {lock, contract, delegate}
 	o.Data = []byte{o.Lock}
+	if len(a.Contracts) > 0 && a.StickyPct > 0 && rapid.IntRange(0, 99).Draw(t, "stickyMode") < a.StickyPct {
+		// lockup-heavy histories: most rewards go to the one sticky tranche, with changing delegates
+		o.Coinbase = a.quai[5].Addr
+		o.Lock = 0
+		if a.ZoneNumber()+1 >= 2*params.BlocksPerMonth {
+			o.Lock = 1
+		}
+		o.Data = append([]byte{o.Lock}, a.Contracts[0].Bytes()...)
+		switch rapid.IntRange(0, 2).Draw(t, "delegate") {
+		case 1:
+			o.Data = append(o.Data, a.quai[0].Addr.Bytes()...)
+		case 2:
+			o.Data = append(o.Data, a.quai[1].Addr.Bytes()...)
+		}
+		a.label("cb_sticky_tranche")
+		a.label("cb_contract_layout")
+		return o
+	}
 	if len(a.Contracts) > 0 && rapid.IntRange(0, 2).Draw(t, "layout") == 0 {
 		c := a.Contracts[rapid.IntRange(0, len(a.Contracts)-1).Draw(t, "contract")]
 		o.Data = append(o.Data, c.Bytes()...)
